@@ -110,12 +110,18 @@ def check_text(ctx, kind, obj, text, headers, where):
     return d
 
 
-def compare_loads(ctx, kind, obj, text, where):
+def compare_loads(ctx, kind, obj, text, where, headers=None):
     cls = _cls(kind)
     raw = bytes(obj)
-    variants = [('str', text), ('bytes', text.encode('latin-1', 'replace') if kind != 'clear' else text.encode('utf-8')),
-                ('bytearray', bytearray(text.encode('latin-1', 'replace'))), ('crlf', text.replace('\n', '\r\n')),
+    ascii_only = all(ord(c_) < 128 for c_ in text)
+    # octet input: UTF-8 (always faithful), and Latin-1 when the text fits
+    variants = [('str', text), ('bytes', text.encode('utf-8')), ('bytearray', bytearray(text.encode('utf-8'))), ('crlf', text.replace('\n', '\r\n')),
                 ('surrounded', 'Dear reader,\nsome text before\n\n' + text + '\nand after\n')]
+    if kind != 'clear':
+        try:
+            variants.append(('latin1-bytes', text.encode('latin-1')))
+        except UnicodeEncodeError:
+            pass
     if kind != 'clear':
         # the same block as other producers write it: any line width up to the 76 columns the RFC allows (MIME-style encoders use 76),
         # with and without header lines / checksum line
@@ -165,6 +171,12 @@ def compare_loads(ctx, kind, obj, text, where):
             ctx.fail('armored-load-crc-warning-on-good-block', {'where': where, 'variant': vn})
         if got != base:
             ctx.fail('armored-load-differs-from-binary-load', {'where': where, 'variant': vn, 'text_load': hx(got[:40]), 'binary_load': hx(base[:40])})
+        if headers is not None and not vn.startswith('rewrapped') and vn != 'with-foreign-headers-76' and kind != 'clear':
+            # the object that comes back knows the header lines that were on the block
+            have = dict(getattr(o2, 'ascii_headers', {}))
+            ctx.count('loaded_headers_compared')
+            if any(have.get(a_) != b_ for a_, b_ in headers):
+                ctx.fail('armor-header-lines-read-differently', {'where': where, 'variant': vn, 'supplied': [list(x) for x in headers], 'read': sorted(have.items())[:6]})
         if kind == 'clear' and o2.message.replace('\r\n', '\n') != obj.message:
             ctx.fail('cleartext-differs-after-load', {'where': where, 'variant': vn})
 
@@ -250,10 +262,7 @@ def run_case(ctx, d):
         o = _objects(d['kind'], d['key'], d['hs'])
         text = str(o)
         check_text(ctx, d['kind'], o, text, HEADERSETS[d['hs']], '%s/%s/h%d' % (d['kind'], d['key'], d['hs']))
-        if all(ord(c) < 128 for a, b in HEADERSETS[d['hs']] for c in a + b):
-            compare_loads(ctx, d['kind'], o, text, '%s/%s/h%d' % (d['kind'], d['key'], d['hs']))
-        else:
-            ctx.observe('non_ascii_header_load_not_judged')
+        compare_loads(ctx, d['kind'], o, text, '%s/%s/h%d' % (d['kind'], d['key'], d['hs']), headers=HEADERSETS[d['hs']])
         ctx.nontrivial(d)
     elif t == 'sigkinds':
         # a signature packet on its own is a SIGNATURE block whatever the signature is about (document, certification, revocation, binding ...)
